@@ -5,7 +5,9 @@ import sys
 sys.path.insert(0, '/verif/engine/rules')
 import selftest, runner
 prop, fp = sys.argv[1].upper(), sys.argv[2]
-over = {'dbg': fp, 'rel': fp}
+import os
+relp = fp[:-6] + '.rel.jsonl'
+over = {'dbg': fp, 'rel': relp if os.path.exists(relp) else fp}
 rc, ctx = selftest.run_rules_only(prop, over)
 nv = selftest.new_violations(ctx, prop)
 print('%s on %s: %d obligations, %d new violations' % (prop, fp.rsplit('/', 1)[-1], len(ctx.obls), len(nv)))
